@@ -877,9 +877,12 @@ impl Hooks for Sim {
     }
 
     fn probe(&self, name: &'static str) {
-        if my_tid().is_some() {
+        if let Some(me) = my_tid() {
             let mut g = self.inner.lock().unwrap();
             *g.probes.entry(name.to_string()).or_insert(0) += 1;
+            // also part of the history (with the operation it happened in): the oracles use it for facts
+            let (step, cur_op) = (g.step, g.threads[me].cur_op);
+            self.log_ev(&Ev { t: "probe".into(), step, th: me as u32, op: cur_op, msg: Some(name.to_string()), ..Default::default() });
         }
     }
 
